@@ -143,6 +143,8 @@ def incParent (c : DCommit) (parent : Handle) : DCommit :=
   match findD c.t parent with
   | none => c
   | some p =>
+    -- incremented and reported only once per transaction
+    if c.res.descrUpdated.any (fun d => d.handle == parent) then c else
     let p' := { p with ver := p.ver + 1 }
     updCorresponding { c with t := replaceDescr c.t p', res := { c.res with descrUpdated := c.res.descrUpdated ++ [p'] } } p'
 
@@ -171,6 +173,8 @@ def commitDItem (toDel toCreate toUpdate : List Handle) (c : DCommit) (it : DIte
         | none => c1
       (updCorresponding c2 n, none)
   | some o, none =>
+    -- already deleted (and reported) as part of a subtree deleted earlier in this transaction
+    if (findD c.t o.handle).isNone then (c, none) else
     let all := subtreeBelow c.t (c.t.descrs.length + 1) o.handle ++ [o]
     let t1 := all.foldl rmDescrAndStates c.t
     let c1 := { c with t := t1, res := { c.res with descrDeleted := c.res.descrDeleted ++ all } }
@@ -252,7 +256,8 @@ def consistentD (t : Tables) (tx : DTx) : Bool :=
 def commitD (t : Tables) (tx : DTx) : Tables × TxResult × Option Err :=
   if tx.descr.isEmpty then (t, {}, none) else
   if !consistentD t tx then (t, {}, some .apiUsage) else
-  let toDel := toDelOf tx
+  -- the parent of a deleted descriptor is only bumped if it survives: `toDel` = all handles of the deleted subtrees
+  let toDel := deletedHandles t tx
   let toCreate := toCreateOf tx
   match commitDItems toDel toCreate (toUpdateOf tx) { t := { t with ver := t.ver + 1 }, tx := tx } tx.descr with
   | (c, some e) => (c.t, c.res, some e)
